@@ -1,7 +1,7 @@
 #!/venv/bin/python
 """Mechanical behaviour-preserving rewrites of a copy of /repo/happysimulator, to measure false alarms of the rule packs.
 
-usage: auto_refactor.py <mode> <dest-root>      mode: reformat | rename-locals | flip-compare | aug-expand
+usage: auto_refactor.py <mode> <dest-root>      mode: reformat | rename-locals | flip-compare | aug-expand | invert-if | all
   reformat       every module is re-emitted by ast.unparse (layout, quotes, parentheses, comments change; semantics do not)
   rename-locals  + every function-local variable x (assigned in the function, not a parameter, not global/nonlocal, not captured as a
                  parameter name by a nested scope) is renamed to x_ in the whole function
@@ -91,6 +91,25 @@ class Flip(ast.NodeTransformer):
         return n
 
 
+class InvertIf(ast.NodeTransformer):
+    """`if c: A else: B`  ->  `if not c: B else: A` (comparison operators negated directly where possible)"""
+    NEG = {ast.In: ast.NotIn, ast.NotIn: ast.In, ast.Eq: ast.NotEq, ast.NotEq: ast.Eq, ast.Is: ast.IsNot, ast.IsNot: ast.Is,
+           ast.Lt: ast.GtE, ast.GtE: ast.Lt, ast.Gt: ast.LtE, ast.LtE: ast.Gt}
+
+    def visit_If(self, n):
+        self.generic_visit(n)
+        if n.orelse and not (len(n.orelse) == 1 and isinstance(n.orelse[0], ast.If)):
+            t = n.test
+            if isinstance(t, ast.UnaryOp) and isinstance(t.op, ast.Not):
+                neg = t.operand
+            elif isinstance(t, ast.Compare) and len(t.ops) == 1 and type(t.ops[0]) in self.NEG:
+                neg = ast.Compare(left=t.left, ops=[self.NEG[type(t.ops[0])]()], comparators=t.comparators)
+            else:
+                neg = ast.UnaryOp(op=ast.Not(), operand=t)
+            return ast.copy_location(ast.If(test=neg, body=n.orelse, orelse=n.body), n)
+        return n
+
+
 class AugExpand(ast.NodeTransformer):
     def visit_AugAssign(self, n):
         if isinstance(n.target, (ast.Name, ast.Attribute)) and isinstance(n.op, (ast.Add, ast.Sub)) and isinstance(n.value, (ast.Constant, ast.Name)) \
@@ -121,6 +140,10 @@ def main():
                 t = Flip().visit(t)
             elif mode == "aug-expand":
                 t = AugExpand().visit(t)
+            elif mode == "invert-if":
+                t = InvertIf().visit(t)
+            elif mode == "all":
+                t = InvertIf().visit(AugExpand().visit(Flip().visit(TopFuncs().visit(t))))
             ast.fix_missing_locations(t)
             out = ast.unparse(t) + "\n"
             compile(out, p, "exec")
